@@ -42,8 +42,11 @@ type lockSched struct {
 }
 
 func roleOf(stack string) string {
-	/* Who started the goroutine does not matter. */
+	/* Who started the goroutine does not matter, except for timers. */
 	if i := strings.Index(stack, "\ncreated by "); i >= 0 {
+		if strings.Contains(stack[i:], "vtime.Advance") {
+			return "timer"
+		}
 		stack = stack[:i]
 	}
 	switch {
@@ -189,6 +192,12 @@ func c19LockRun(capPath, scenario string, prefix []int) (*lockRun, error) {
 			if !ls.waitRole("output:") {
 				return nil, fmt.Errorf("the status line never reached the write lock")
 			}
+		case 'T':
+			/* The pause interval passes: the unmute timer fires. */
+			vtime.Advance(opshell.PlainWritePause, nil)
+			if !ls.waitRole("timer:") {
+				return nil, fmt.Errorf("the unmute timer never reached the write lock")
+			}
 		}
 	}
 	/* Schedule. */
@@ -217,6 +226,13 @@ func c19LockRun(capPath, scenario string, prefix []int) (*lockRun, error) {
 	ts.och <- opshell.CLine{Line: "<liveness-marker>", Color: opshell.ColorGreen}
 	quiesce.Wait()
 	out := ts.output()
+	/* Mute semantics whatever the order: output that was suppressed starts
+	the calm anew, so the shell cannot be un-muted at that same instant. */
+	if strings.Contains(scenario, "T") && strings.Contains(scenario, "P") && !strings.Contains(out, "<plain>") {
+		if silenced, _ := ts.sh.VerifState(); !silenced || strings.Contains(out, "Unmuting") {
+			res.Problem = fmt.Sprintf("shell output arriving exactly when the pause interval ends was suppressed, and yet muting ended at that same moment (no calm at all): terminal shows %q, muted flag %v", out, silenced)
+		}
+	}
 	var stuck []string
 	for _, g := range quiesce.Dump() {
 		if strings.Contains(g.State, "Mutex.Lock") && (strings.Contains(g.Frames, "lib/opshell.") || strings.Contains(g.Frames, "goxterm.")) {
@@ -240,7 +256,7 @@ func c19LockRun(capPath, scenario string, prefix []int) (*lockRun, error) {
 	if 0 != len(stuck) {
 		res.Stuck = strings.Join(stuck, " <-> ")
 		res.Problem = fmt.Sprintf("deadlock: goroutines stuck on mutexes forever: %s; the status line sent afterwards was %sdisplayed", res.Stuck, map[bool]string{true: "", false: "not "}[strings.Contains(out, "<liveness-marker>")])
-	} else if !strings.Contains(out, "<liveness-marker>") {
+	} else if !strings.Contains(out, "<liveness-marker>") && "" == res.Problem {
 		res.Problem = fmt.Sprintf("a status line sent after the operations was not displayed (terminal shows %q)", out)
 	}
 	return res, nil
